@@ -5,6 +5,7 @@ import Kingdon.Lemmas.GpDen
 import Kingdon.Lemmas.Bits
 import Kingdon.Lemmas.Reverse
 import Kingdon.Lemmas.Products
+import Kingdon.Lemmas.CfgAlgebra
 namespace Kingdon.C03
 
 /-- filter of `codegen_op`: `k_out == kx + ky` holds exactly for disjoint blades -/
@@ -68,5 +69,11 @@ theorem two_acp (hs : TableSymm c.computeSign) (x y : MV α) :
 /-- cp + acp = gp -/
 theorem cp_add_acp_eq_gp (hs : TableSymm c.computeSign) (x y : MV α) :
     den (cp c x y) + den (acp c x y) = den (gp c x y) := cp_add_acp c hr hs x y
+
+omit hr in
+/-- for every admissible configuration the table is symmetric up to sign and has values in {1,-1,0}: the
+    hypotheses of the theorems above are met by every algebra kingdon can construct -/
+theorem table_hypotheses_hold (h : c.admissible = true) : TableRange c.computeSign ∧ TableSymm c.computeSign :=
+  ⟨Cfg.tableRange_of_adm c (Cfg.adm_of_admissible c h), Cfg.tableSymm_of_adm c (Cfg.adm_of_admissible c h)⟩
 
 end Kingdon.C03
